@@ -188,7 +188,8 @@ class RegionVisual(Meta):
                       'textangle': 'rotation'}
 
         elif artist == 'Line2D':
-            keymap = {'symsize': 'markersize',
+            keymap = {'symbol': 'marker',  # CRTF symbols are mpl markers
+                      'symsize': 'markersize',
                       'color': 'markeredgecolor',
                       'linewidth': 'markeredgewidth',
                       'fill': 'fillstyle'}
